@@ -179,7 +179,12 @@ def gen_grid_case(rng):
         js["scenario"]["core_standing_time"] = None
         grid = [[abs(r_) + 50, 0] for r_, _ in grid]
         sign = 1
-    return {"js": js, "grid": grid, "individual": individual, "with_ts": rng.random() < 0.6, "offset": rng.choice([0, 2, 2, 3, -2])}
+    blanks = []
+    if rng.random() < 0.25:
+        # cells that are empty / not a number: the reader falls back to the previous value of the SAME column (0 in the first row)
+        blanks = [(rng.randrange(len(grid)), rng.choice([0, 1])) for _ in range(rng.choice([1, 2, 3]))]
+    return {"js": js, "grid": grid, "individual": individual, "with_ts": rng.random() < 0.6, "offset": rng.choice([0, 2, 2, 3, -2]),
+            "blanks": blanks}
 
 
 def run_generate(case):
@@ -194,9 +199,10 @@ def run_generate(case):
         iv = datetime.timedelta(minutes=case["js"]["scenario"]["interval"])
         with open(gp, "w") as f:
             f.write(("timestamp," if case["with_ts"] else "") + "residual load,curtailment\n")
+            bl = set(tuple(b) for b in case.get("blanks", []))
             for i, (r, c) in enumerate(case["grid"]):
                 ts = (start + (i - case["offset"]) * iv).strftime("%Y-%m-%d %H:%M") + "," if case["with_ts"] else ""
-                f.write("%s%s,%s\n" % (ts, r, c))
+                f.write("%s%s,%s\n" % (ts, "" if (i, 0) in bl else r, "n/a" if (i, 1) in bl else c))
         out_csv = os.path.join(tmp, "schedule.csv")
         args = argparse.Namespace(scenario=sp, input=gp, output=out_csv, individual=case["individual"], core_standing_time=None, visual=False, config=None)
         res = {}
@@ -251,6 +257,17 @@ def run_generate(case):
         shutil.rmtree(tmp, ignore_errors=True)
 
 
+def effective_grid(case):
+    """the grid series as documented for cells that are not numbers: previous value of the same column, 0 in the first row"""
+    bl = set(tuple(b) for b in case.get("blanks", []))
+    out = []
+    for i, (r, c) in enumerate(case["grid"]):
+        r_ = (out[-1][0] if i else 0) if (i, 0) in bl else r
+        c_ = (abs(out[-1][1]) if i else 0) if (i, 1) in bl else c
+        out.append((r_, c_))
+    return out
+
+
 class GenUnit(corr.Unit):
     name = "gen_schedule"
     tagfn = None
@@ -298,7 +315,8 @@ class GenUnit(corr.Unit):
             # scenario (timestamps given, 0 < k < length) is used from index k, every other series from its first value; steps
             # beyond the series are zero
             k_ = case["offset"] if (case["with_ts"] and 0 < case["offset"] < len(case["grid"])) else 0
-            exp_r, exp_c = (case["grid"][t + k_] if t + k_ < len(case["grid"]) else (0, 0))
+            eff = effective_grid(case)
+            exp_r, exp_c = (eff[t + k_] if t + k_ < len(eff) else (0, 0))
             ro_, co_ = float(r[h.index("residual load old [kW]")]), float(r[h.index("curtailment old [kW]")])
             if abs(ro_ - exp_r) > 2e-3 or abs(abs(co_) - abs(exp_c)) > 2e-3:
                 v.append(("C13/grid-alignment", "row %d: residual/curtailment taken from the grid file are %s/%s, the series gives %s/%s at that time: %s"
